@@ -243,7 +243,7 @@ func RunSafety(r sim.Src, mons []*sim.Mon, keepLog bool, sh Shape) *sim.World {
 	if sh.ManyTxs {
 		ntx += 3
 	}
-	o := sim.AsyncOpts{Steps: steps, Heights: heights, NoRestart: sh.NoRestart, InitialTxs: ntx, ProfileOnly: sh.Profile, Avoid: sh.Avoid, Probes: sh.Probes}
+	o := sim.AsyncOpts{Steps: steps, Heights: heights, NoRestart: sh.NoRestart, InitialTxs: ntx, ProfileOnly: sh.Profile, Avoid: sh.Avoid, Probes: sh.Probes, FlagFlips: sh.Watchers}
 	w.Stat(fmt.Sprintf("N=%d", n))
 	if len(byz) > 0 {
 		w.Stat("has_byz")
